@@ -437,6 +437,15 @@ fn gen_case(rng: &mut Rng, tier: Tier, force_default_capacity: bool, for_faults:
             }
         })
         .collect();
+    // Now and then one replacement is huge (around 64 KiB, the size of the
+    // crate's internal buffers; anything that batches output has its limits
+    // there), in a short stream so that the output stays a few megabytes.
+    let mut repl = repl;
+    if !for_faults && !force_default_capacity && data.len() <= 400 && !pats.is_empty() && rng.chance(1, 25) {
+        let i = rng.below(pats.len());
+        let n = *rng.pick(&[65_535usize, 65_536, 65_537, 70_001, 131_073]);
+        repl[i] = (0..n).map(|k| b'A' + (k % 23) as u8).collect();
+    }
     StreamCase { pats, cfg, data, schedule, spare, repl, partial_writes: rng.chance(1, 3) }
 }
 
